@@ -45,16 +45,19 @@ def programs():
     return src
 
 
-def run_suite(wd, variant='exc', max_evals=300, rng=None, jobs=12, only=None):
+def run_suite(wd, variant='exc', max_evals=300, rng=None, jobs=12, only=None, force_seed=None):
     """Returns (executions, skipped): one Execution per program that could be built and produced a log."""
     from concurrent.futures import ThreadPoolExecutor
     lib, shim = build_shim(variant)
-    rng = rng or random.Random(1)
+    import zlib
+    base = rng.randint(0, 10**9) if rng is not None else 1
     progs = [f for f in programs() if only is None or os.path.relpath(f, mk.REPO) in only]
-    seeds = {f: rng.randint(0, 10**9) for f in progs}
+    # per-program seed: a function of the run's seed and the program only, so that a replay of ONE program selects the
+    # same evaluations as the run that saved it
+    seeds = {f: zlib.crc32(('%d:%s' % (base, os.path.relpath(f, mk.REPO))).encode()) for f in progs}
 
     def one(f):
-        b = os.path.basename(f)
+        b = os.path.relpath(f, mk.REPO).replace('/', '__')       # tests/ and examples/ share base names
         obj = os.path.join(wd, b + '.o'); exe = os.path.join(wd, b + '.exe'); log = os.path.join(wd, b + '.ndjson')
         cc = 'g++' if f.endswith('.cpp') else 'gcc'
         r = mk.sh([cc, '-O0', '-w', '-I' + os.path.join(lib, 'include'), '-I' + os.path.dirname(f), '-I' + os.path.join(mk.REPO, 'src'), '-c', f, '-o', obj])
@@ -72,7 +75,7 @@ def run_suite(wd, variant='exc', max_evals=300, rng=None, jobs=12, only=None):
             return (f, None, 'no public call made')
         ev = [json.loads(l) for l in open(log) if l.strip()]
         # evaluations do not change the state: a random subset of them is validated, every other call is kept
-        lr = random.Random(seeds[f])
+        lr = random.Random(seeds[f] if force_seed is None else force_seed)
         idx = [i for i, e in enumerate(ev) if e.get('op') == 'eval' and e.get('end') == 'ret']
         drop = set(lr.sample(idx, len(idx) - max_evals)) if len(idx) > max_evals else set()
         kept = [e for i, e in enumerate(ev) if i not in drop]
@@ -83,6 +86,7 @@ def run_suite(wd, variant='exc', max_evals=300, rng=None, jobs=12, only=None):
         ex.recorded = True                  # run_executions must not run it again
         ex.ok_rc = (0, 1, 77)               # a test may fail or skip; what is judged is the trace
         ex.suite_src = os.path.relpath(f, mk.REPO)
+        ex.suite_args = dict(seed=seeds[f], max_evals=max_evals)
         ex.sols = set(''.join(chr(c) for c in e.get('sc', [])).lower().replace('-', '').replace(' ', '') for e in ev if e.get('op') == 'init')
         return (f, ex, None)
     execs, skipped = [], []
